@@ -78,6 +78,10 @@ contract("codemodder.codemods.base_codemod.BaseCodemod._process_file", props=["C
               "all(implies(n in file_line_patterns(filename.relative_to(context.directory), context.path_exclude), n in result.line_exclude) for n in ANY('int'))"),
              ("line includes: a path:line pattern spelled relative to the target applies to this file (must)",
               "all(implies(n in file_line_patterns(filename.relative_to(context.directory), context.path_include), n in result.line_include) for n in ANY('int'))"),
+             ("line excludes: the absolute spelling of a path:line pattern applies to this file as well (must; both spellings may be mixed in one list)",
+              "all(implies(n in file_line_patterns(filename, context.path_exclude), n in result.line_exclude) for n in ANY('int'))"),
+             ("line includes: the absolute spelling of a path:line pattern applies to this file as well (must)",
+              "all(implies(n in file_line_patterns(filename, context.path_include), n in result.line_include) for n in ANY('int'))"),
              ("line excludes come only from patterns matching this file, relative or absolute spelling (may)",
               "all(implies(n in result.line_exclude, n in file_line_patterns(filename.relative_to(context.directory), context.path_exclude)"
               " or n in file_line_patterns(filename, context.path_exclude)) for n in ANY('int'))"),
